@@ -279,13 +279,30 @@ def call(fn, *a, **kw):
 
 # ============================================================================ printers
 TABLES = {}
+# Independent of the engine's tables (by enum NAME): what each KMIP name means.
+HASH_ID = {'MD5': 1, 'SHA_1': 2, 'SHA_224': 3, 'SHA_256': 4, 'SHA_384': 5, 'SHA_512': 6}
+DSA_HASH = {'MD5_WITH_RSA_ENCRYPTION': 1, 'SHA1_WITH_RSA_ENCRYPTION': 2, 'SHA224_WITH_RSA_ENCRYPTION': 3,
+            'SHA256_WITH_RSA_ENCRYPTION': 4, 'SHA384_WITH_RSA_ENCRYPTION': 5, 'SHA512_WITH_RSA_ENCRYPTION': 6}
+HMAC_HASH = {'HMAC_MD5': 1, 'HMAC_SHA1': 2, 'HMAC_SHA224': 3, 'HMAC_SHA256': 4, 'HMAC_SHA384': 5, 'HMAC_SHA512': 6}
+CIPHER_OF = {'TRIPLE_DES': 'TripleDES', 'AES': 'AES', 'BLOWFISH': 'Blowfish', 'CAMELLIA': 'Camellia', 'CAST5': 'CAST5',
+             'IDEA': 'IDEA', 'RC4': 'ARC4'}
+MODE_OF_CLASS = {'CBC': 1, 'ECB': 2, 'CFB': 4, 'OFB': 5, 'CTR': 6, 'GCM': 9}
+
+
+def hid_of_hash(h):
+    return None if h is None else HASH_ID.get(h.name)
+
+
+def hid_of_dsa(d):
+    return None if d is None else DSA_HASH.get(d.name)
+
 
 
 def tables():
     if not TABLES:
         T = gen_cryptotables.reflect()
-        TABLES['alg_of_class'] = {cn: v for v, cn, _, _ in T['sym']}
-        TABLES['mode_of_class'] = {cn: v for v, cn, _ in T['modes']}
+        TABLES['alg_of_class'] = {cn: A[n].value for n, cn in CIPHER_OF.items()}
+        TABLES['mode_of_class'] = dict(MODE_OF_CLASS)
         TABLES['sym'] = {v: (cn, bs, ks) for v, cn, bs, ks in T['sym']}
         TABLES['T'] = T
     return TABLES
@@ -468,8 +485,7 @@ def rbytes(rng, n):
 
 def ref_encrypt(p, iv, msg):
     """Reference ciphertext (and 16-byte tag) for an accepted tuple; None when the reference does not cover it."""
-    t = tables()['sym']
-    cn = t[p['alg'].value][0]
+    cn = CIPHER_OF[p['alg'].name]
     if cn == 'ARC4':
         return R.sym_encrypt('ARC4', p['key'], None, None, None, msg)
     mode = MODE_NAME.get(p['mode'])
@@ -607,8 +623,7 @@ def one_decrypt(ctx, eng, p, ct, tag, expect, in_coq, cases, meta, label):
                  {'msg': expect.hex()[:200], 'ct': ct.hex()[:200], 'tag': None if tag is None else tag.hex(), 'outcome': o,
                   'got': v.hex()[:200] if isinstance(v, bytes) else str(v)[:200]})
         # reference decrypt of the engine's ciphertext
-        t = tables()['sym']
-        cn = t[p['alg'].value][0]
+        cn = CIPHER_OF[p['alg'].name]
         mode = MODE_NAME.get(p['mode'])
         if (cn == 'ARC4' or mode) and mode != 'GCM':
             r = R.sym_decrypt(cn, p['key'], mode, p['iv'], PAD_SCHEME.get(p['pad']), ct)
@@ -653,7 +668,6 @@ def run_padding(ctx, cases, meta):
 def run_mac(ctx, eng, cases, meta):
     rng = ctx.subrng('mac')
     t = tables()
-    hm = dict(t['T']['hmac'])
     algs = [A.HMAC_SHA1, A.HMAC_SHA224, A.HMAC_SHA256, A.HMAC_SHA384, A.HMAC_SHA512, A.HMAC_MD5,
             A.TRIPLE_DES, A.AES, A.BLOWFISH, A.CAMELLIA, A.CAST5, A.IDEA, A.RC4, A.RSA, A.DES, A.HMAC_SHA3_256]
     quick = ctx.tier == 'quick'
@@ -679,10 +693,10 @@ def run_mac(ctx, eng, cases, meta):
                 if o.startswith('crash') or o.startswith('kmip:'):
                     viol(ctx, 'mac', 'mac() left with ' + o, {'alg': alg, 'key': key}, {'data': data.hex()[:100]})
                 if o == 'done':
-                    if alg.value in hm:
-                        ref = R.hmac_fn(hm[alg.value])(key, data)
+                    if alg.name in HMAC_HASH:
+                        ref = R.hmac_fn(HMAC_HASH[alg.name])(key, data)
                     else:
-                        enc, _, bs = R.block_fns(t['sym'][alg.value][0], key)
+                        enc, _, bs = R.block_fns(CIPHER_OF[alg.name], key)
                         ref = R.cmac(enc, bs, data)
                     if ref != v:
                         viol(ctx, 'mac', 'MAC differs from the independent reference', {'alg': alg, 'key': key},
@@ -752,10 +766,9 @@ def derive_tuples(ctx, rng):
 def run_derive(ctx, eng, cases, meta):
     rng = ctx.subrng('derive')
     t = tables()
-    hid_of = dict(t['T']['hash'])
     for tp in derive_tuples(ctx, rng):
         p = dict(tp)
-        hid = hid_of.get(ev(p['hash']))
+        hid = hid_of_hash(p['hash'])
         hl = R.DIGEST.get(hid, 32)
         ln = p['len']
         p['len'] = {'d': hl, 'd+1': hl + 1, 'max': 255 * hl, 'max+1': 255 * hl + 1}.get(ln, ln)
@@ -792,7 +805,7 @@ def run_derive(ctx, eng, cases, meta):
             if p['method'] == D.ENCRYPT:
                 c2 = last_call(calls, 'cipher')
                 ep = dict(alg=p['alg'], key=p['key'], mode=p['mode'], pad=p['pad'], aad=None)
-                ref = ref_encrypt(ep, c2['iv'] if c2 else None, p['data']) if p['alg'].value in t['sym'] else None
+                ref = ref_encrypt(ep, c2['iv'] if c2 else None, p['data']) if p['alg'].name in CIPHER_OF else None
                 if ref is not None and ref[0] != v:
                     viol(ctx, 'derive_key', 'ENCRYPT derivation differs from the reference cipher', p, {'got': v.hex()[:200]})
             else:
@@ -901,8 +914,6 @@ def sig_params_term(p, loads):
 def run_rsa(ctx, eng, cases, meta, rsa_cache):
     rng = ctx.subrng('rsa')
     t = tables()
-    hid_of = dict(t['T']['hash'])
-    dsa_of = {d: h for d, h, _ in t['T']['dsa']}
     quick = ctx.tier == 'quick'
     sizes = [s for s in (1024, 2048) if s in rsa_cache]
     others = {}
@@ -918,7 +929,7 @@ def run_rsa(ctx, eng, cases, meta, rsa_cache):
             for h in [None, H.MD5, H.SHA_1, H.SHA_224, H.SHA_256, H.SHA_384, H.SHA_512, H.MD2]:
                 if pad != P.OAEP and h not in (None, H.SHA_256):
                     continue
-                hid = hid_of.get(ev(h))
+                hid = hid_of_hash(h)
                 if pad == P.OAEP and hid:
                     mx = kbytes - 2 * R.DIGEST[hid] - 2
                 else:
@@ -1027,7 +1038,7 @@ def run_rsa(ctx, eng, cases, meta, rsa_cache):
                 if ov == 'done' and ok:
                     viol(ctx, 'verify_signature', 'a zero signature verifies', p)
                 continue
-            hid = dsa_of.get(ev(dsa)) if dsa is not None else hid_of.get(ev(h))
+            hid = hid_of_dsa(dsa) if dsa is not None else hid_of_hash(h)
             kind = 'PSS' if pad == P.PSS else 'PKCS1'
             if len(sig) != size // 8:
                 viol(ctx, 'sign', 'signature length is not the modulus length', p, {'len': len(sig)})
@@ -1062,8 +1073,8 @@ def run_rsa(ctx, eng, cases, meta, rsa_cache):
                 viol(ctx, 'verify_signature', 'a reference signature with the same parameters is not reported valid', p, {'outcome': o5})
             # the same parameters given the other way round (dsa <-> separate hash) select the same plan
             if dsa is not None and hid is not None:
-                hv = {v: k for k, v in hid_of.items()}[hid]
-                alt = dict(dsa=None, alg=A.RSA, hash=H(hv), pad=pad)
+                hname = {v: k for k, v in HASH_ID.items()}[hid]
+                alt = dict(dsa=None, alg=A.RSA, hash=H[hname], pad=pad)
                 o6, r6, _ = verify(pub, msg, sig, alt)
                 if o6 != 'done' or r6 is not True:
                     viol(ctx, 'verify_signature', 'signature by digital-signature-algorithm not valid under the equivalent separate parameters', p, {'outcome': o6})
@@ -1178,7 +1189,6 @@ def run_server(ctx, cases, meta, rsa_cache):
                     if o3 == 'done':
                         viol(ctx, 'Decrypt', 'GCM accepted a modified %s through the server' % label, p, {})
         # ---------------- MAC
-        hm = dict(t['T']['hmac'])
         for alg in [A.HMAC_SHA1, A.HMAC_SHA224, A.HMAC_SHA256, A.HMAC_SHA384, A.HMAC_SHA512, A.HMAC_MD5,
                     A.AES, A.TRIPLE_DES, A.BLOWFISH, A.CAMELLIA, A.CAST5, A.IDEA, A.RC4, A.RSA]:
             kalg = alg if alg.value in t['sym'] else A.AES
@@ -1200,10 +1210,10 @@ def run_server(ctx, cases, meta, rsa_cache):
                                                           call_term(c, key), cp.z(len(v) if o == 'done' else -1)))
                     meta.append(('server/mac', {'alg': alg.name, 'key': key.hex()}, ln, o))
                 if o == 'done':
-                    if alg.value in hm:
-                        ref = R.hmac_fn(hm[alg.value])(key, data)
+                    if alg.name in HMAC_HASH:
+                        ref = R.hmac_fn(HMAC_HASH[alg.name])(key, data)
                     else:
-                        enc, _, bs = R.block_fns(t['sym'][alg.value][0], key)
+                        enc, _, bs = R.block_fns(CIPHER_OF[alg.name], key)
                         ref = R.cmac(enc, bs, data)
                     if ref != v:
                         viol(ctx, 'MAC', 'response differs from the independent reference', {'alg': alg, 'key': key}, {'data': data.hex()[:200]})
@@ -1212,11 +1222,10 @@ def run_server(ctx, cases, meta, rsa_cache):
         base = reg_sym(A.AES, base_key, allmask)
         kek_key = rbytes(rng, 32)
         kek = reg_sym(A.AES, kek_key, allmask)
-        hid_of = dict(t['T']['hash'])
         dtuples = []
         for method in (D.HMAC, D.HASH, D.PBKDF2, D.NIST800_108_C):
             for h in (H.MD5, H.SHA_1, H.SHA_224, H.SHA_256, H.SHA_384, H.SHA_512):
-                for bits in (128, 64, 256, 8 * R.DIGEST[hid_of[h.value]] + 64):
+                for bits in (128, 64, 256, 8 * R.DIGEST[HASH_ID[h.name]] + 64):
                     dtuples.append((method, h, bits))
         for mode, pad in ((M.CBC, P.PKCS5), (M.ECB, P.ANSI_X923), (M.CTR, None), (M.CFB, None)):
             for bits in (64, 128, 256):
@@ -1233,7 +1242,7 @@ def run_server(ctx, cases, meta, rsa_cache):
                 prim = ref_encrypt(dict(alg=A.AES, key=base_key, mode=mode, pad=pad, aad=None), iv, data)[0]
                 pdesc = dict(method=method, mode=mode, pad=pad, bits=bits)
             else:
-                hid = hid_of[h.value]
+                hid = HASH_ID[h.name]
                 with_data = method != D.HASH       # the handler always supplies the key: HASH needs the data absent
                 dpar = ca.DerivationParameters(cryptographic_parameters=kdrv.crypto_params(hashing_algorithm=h),
                                                derivation_data=data if with_data else None,
@@ -1317,7 +1326,6 @@ def run_server(ctx, cases, meta, rsa_cache):
                        for pd in (P.PSS, P.PKCS1v15)]
             combos += [dict(dsa=None, alg=A.RSA, hash=H.SHA_256, pad=P.OAEP), dict(dsa=None, alg=None, hash=None, pad=P.PSS),
                        dict(dsa=DSA.DSA_WITH_SHA1, alg=None, hash=None, pad=P.PSS), dict(dsa=None, alg=A.RSA, hash=H.SHA_256, pad=None)]
-            dsa_of = {d: h for d, h, _ in t['T']['dsa']}
             for k, q in enumerate(combos):
                 msg = rbytes(rng, [0, 1, 15, 16, 17, 1000][k % 6])
                 cpar = kdrv.crypto_params(digital_signature_algorithm=q['dsa'], cryptographic_algorithm=q['alg'],
@@ -1330,7 +1338,7 @@ def run_server(ctx, cases, meta, rsa_cache):
                 if o != 'done':
                     continue
                 sig = hx(it['payload']['signature_data'])
-                hid = dsa_of.get(ev(q['dsa'])) if q['dsa'] is not None else hid_of.get(ev(q['hash']))
+                hid = hid_of_dsa(q['dsa']) if q['dsa'] is not None else hid_of_hash(q['hash'])
                 kind = 'PSS' if q['pad'] == P.PSS else 'PKCS1'
                 if not R.rsa_verify(pub_bytes, kind, hid, msg, sig):
                     viol(ctx, 'Sign', 'the reference verifier rejects the signature', q, {'size': size})
